@@ -1247,6 +1247,162 @@ def check_nnx_twins(ctx, case):
 
 
 # ------------------------------------------------------------------------------------------------
+# lifted transforms over a module that owns an attribute sub-module (adopted child), with draws inside and outside the lift
+# ------------------------------------------------------------------------------------------------
+
+LIFTS = ['map_variables', 'vmap', 'remat', 'jit']
+
+
+def _lift_classes(n_own, n_child, s_own, s_child):
+  class Inner(nn.Module):
+    def plain(self):  # never lifted
+      return _key_out(self.make_rng(s_child))
+
+    @nn.compact
+    def __call__(self):
+      return tuple(_key_out(self.make_rng(s_child)) for _ in range(n_child))
+
+  class Outer(nn.Module):
+    inner: nn.Module  # passed from outside, adopted as child 'inner'
+
+    def plain(self):  # never lifted
+      return _key_out(self.make_rng(s_own))
+
+    def child_plain(self):  # never lifted
+      return self.inner.plain()
+
+    @nn.compact
+    def __call__(self):  # lifted when the class is transformed
+      own = tuple(_key_out(self.make_rng(s_own)) for _ in range(n_own))
+      return own, self.inner()
+
+  return Inner, Outer
+
+
+def _lifted(cls, lift, streams):
+  if lift == 'none':
+    return cls
+  if lift == 'map_variables':
+    return nn.map_variables(cls, 'params', lambda x: x, lambda x: x, mutable=False, init=False)
+  if lift == 'vmap':
+    return nn.vmap(cls, in_axes=None, out_axes=0, axis_size=2, split_rngs={s: False for s in streams})
+  if lift == 'remat':
+    return nn.remat(cls)
+  if lift == 'jit':
+    return nn.jit(cls)
+  raise ValueError(lift)
+
+
+def lift_prog(case, lift):
+  """the module program the run amounts to: transforms that neither split nor fork the streams are transparent for keys"""
+  body = [['draw', case['s_own']]] * case['n_own'] + [['sub', 'inner', [['draw', case['s_child']]] * case['n_child']]]
+  out = []
+  for step in case['seq']:
+    if step == 'p':
+      out.append(['draw', case['s_own']])
+    elif step == 'q':
+      out.append(['sub', 'inner', [['draw', case['s_child']]]])
+    else:
+      out += [['jit', body]] if lift == 'jit' else body
+  return out
+
+
+def lift_reqs(case):
+  cfg = {'sep': case['sep'], 'fallback': FALLBACK_LINEN}
+  return [('linen_prog', [cfg, model_seeds(case['seeds']), lift_prog(case, lift)]) for lift in ['none'] + case['lifts']]
+
+
+def run_lift_impl(case, lift):
+  Inner, Outer = _lift_classes(case['n_own'], case['n_child'], case['s_own'], case['s_child'])
+  cls = _lifted(Outer, lift, [r[0] for r in case['seeds']])
+  vm = lift == 'vmap'
+
+  def lane0(x, bad):
+    a = np.asarray(x)
+    if vm:
+      if not (a[0] == a[1]).all():
+        bad.append(True)
+      a = a[0]
+    return tuple(int(v) for v in a.ravel())
+
+  try:
+    module = cls(inner=Inner())  # built at top level: `inner` is adopted by `module`
+    bad = []
+
+    def program(m):
+      keys = []
+      for step in case['seq']:
+        if step == 'p':
+          keys.append(_canon_out([m.plain()])[0])
+        elif step == 'q':
+          keys.append(_canon_out([m.child_plain()])[0])
+        else:
+          own, child = m()
+          keys += [lane0(k, bad) for k in own] + [lane0(k, bad) for k in child]
+      return keys
+
+    with sep_flag(case['sep']):
+      out = nn.apply(program, module)({}, rngs=make_seeds(case['seeds']))
+    if bad:
+      return ('err', 'BroadcastStreamDiffersBetweenLanes')
+    return ('ok', out)
+  except Exception as e:
+    return ('err', err_name(e))
+
+
+def gen_lift_case(rng):
+  seeds = gen_seeds(rng)
+  if len({r[1] for r in seeds}) < len(seeds):
+    seeds = [[r[0], i, r[2]] for i, r in enumerate(seeds)]
+  present = [r[0] for r in seeds]
+  pool = present + (['x'] if FALLBACK_LINEN in present else [])
+  seq = [rng.choice('pqcc') for _ in range(rng.randrange(1, 6))]
+  if 'c' not in seq:
+    seq.insert(rng.randrange(len(seq) + 1), 'c')
+  return {'kind': 'linen-lift', 'sep': rng.random() < 0.5, 'seeds': seeds, 'seq': ''.join(seq), 'n_own': rng.randrange(1, 3), 'n_child': rng.randrange(1, 3),
+          's_own': rng.choice(pool), 's_child': rng.choice(pool), 'lifts': rng.sample(LIFTS, 2)}
+
+
+def check_lift_case(ctx, drv, case, mouts=None):
+  mouts = mouts if mouts is not None else drv.run(lift_reqs(case))
+  ev = KeyEval(seedtab_of(case['seeds']))
+  ref = run_lift_impl(case, 'none')
+  ctx.case(case, nontrivial=ref[0] == 'ok')
+  ctx.count('lift_seq', ''.join(sorted(set(case['seq']))))
+  for lift, mo in zip(['none'] + case['lifts'], mouts):
+    if mo[0] != 'ok' or 'err' in mo[1]:
+      raise RuntimeError(f'driver error {mo}')
+    want = ('ok', [ev.data(t) for t in mo[1]['keys']])
+    got = ref if lift == 'none' else run_lift_impl(case, lift)
+    ctx.count('lift_transform', lift)
+    c2 = dict(case, lift=lift)
+    if got[0] != 'ok':
+      ctx.violation('linen-lift-raises', f'{lift}: the lifted module raised {got[1]}', c2)
+      return False
+    ctx.count('keys_compared_with_model', 'linen-lift', len(got[1]))
+    # property oracles on the implementation: (1) no key twice in one run; (2) a transform that neither splits nor forks the
+    # streams hands out exactly the keys of the un-lifted program (one counter per scope, shared inside and outside the lift)
+    labels = label_draws(lift_prog(case, lift), case['seeds'])
+    if labels is None or len(labels) != len(got[1]):
+      raise RuntimeError('harness bug: label/output length mismatch (lift)')
+    if not check_distinct(ctx, c2, labels, got[1], case['sep']):
+      return False
+    if lift not in ('none', 'jit') and got != ref:
+      bad = [i for i, (a, b) in enumerate(zip(got[1], ref[1])) if a != b]
+      ctx.violation(
+        'linen-lift-not-position-addressed',
+        f'{lift} (streams neither split nor forked): draws {bad} ({[label_id(labels[i]) for i in bad[:3]]}) differ from the un-lifted program', c2,
+      )
+      return False
+    if got != want:
+      ctx.disagreements_checked += 1
+      bad = next((i for i, (x, y) in enumerate(zip(got[1], want[1])) if x != y), None)
+      ctx.violation('linen-lift-model-mismatch', f'{lift}: draw #{bad} impl {str(got)[:160]} model {str(want)[:160]}', c2, concrete=False)
+      return False
+  return True
+
+
+# ------------------------------------------------------------------------------------------------
 # nodes holding several RngStream objects with the same name (parts built with their own nnx.Rngs), shared objects, reseed
 # ------------------------------------------------------------------------------------------------
 
@@ -1769,6 +1925,8 @@ def _run_case(ctx, drv, obj, rng=None):
     check_jit_alias(ctx, drv, case)
   elif kind == 'nnx-node':
     check_node_case(ctx, drv, case)
+  elif kind == 'linen-lift':
+    check_lift_case(ctx, drv, case)
   elif kind == 'probe-jit-shape':
     probe_shape_dependent_jit(ctx)
   elif kind == 'probe-separator-nul':
@@ -1868,6 +2026,7 @@ def run(ctx):
     nnx_cases.append(c)
   stream_cases = [gen_stream_history(rng) for _ in range(40 if not thorough else 600)]
   node_cases = [gen_node_case(rng) for _ in range(80 if not thorough else 1200)]
+  lift_cases = [gen_lift_case(rng) for _ in range(14 if not thorough else 200)]
 
   reqs, slices = [], []
 
@@ -1887,6 +2046,8 @@ def run(ctx):
     add(stream_reqs(c))
   for c in node_cases:
     add(node_reqs(c)[0])
+  for c in lift_cases:
+    add(lift_reqs(c))
   answers = drv.run(reqs)
   it = iter(slices)
 
@@ -1935,6 +2096,10 @@ def run(ctx):
   for c in node_cases:
     check_node_case(ctx, drv, c, mouts=mine())
   ctx.sample(c)
+  for c in lift_cases:
+    check_lift_case(ctx, drv, c, mouts=mine())
+  ctx.sample(c)
+  lap('nnx+node+lift')
   lap('nnx')
   ctx.extra['driver_calls'] = drv.calls
   ctx.extra['flag_restored'] = bool(flax.config.flax_fix_rng_separator) == flag_default
